@@ -31,7 +31,16 @@ Round 4:
   * the attributes are read THREE times: before the call, when the call has returned / raised while
     the exception is still referenced ("held"), and after the exception has been released and
     `gc.collect()` ("after"): a restore that is deferred to the death of some object, or replayed
-    late by one, differs in one of the two."""
+    late by one, differs in one of the two.
+
+Round 8 -- WHICH terminal (several terminals in the process):
+  * "layout": {"ptys": [attrs, ...], "stdin": i | "pipe" | "null", "stdout": j, "tty": k}: the process has
+    len(ptys) terminals (pty pairs) with their own initial attributes; descriptor 0 / sys.stdin is the slave
+    of pty i (or a pipe / /dev/null: not a tty), descriptor 1 / sys.stdout the slave of pty j, the library's
+    active terminal `utils._tty_fd` the slave of pty k; ptys no descriptor refers to are bystanders.  The
+    layout is data: nothing here knows which descriptors the operation uses.  The attributes of EVERY pty are
+    read at the three times; result key "terms": [{"before", "held", "after"}, ...] (one per pty), and
+    "restored" says that all of them are identical."""
 import implenv  # noqa: F401  (sys.path, stubs)
 
 import copy
@@ -65,6 +74,17 @@ MASTER, SLAVE = pty.openpty()
 os.set_blocking(MASTER, False)
 U._tty_fd = SLAVE
 BASE = R_TCGETATTR(SLAVE)
+PTYS = [(MASTER, SLAVE)]  # every terminal of this process; MASTER / SLAVE = the one the tracked calls talk to
+REAL_STDIN = sys.stdin
+FD_SAVE = {}
+
+
+def pty_pair(i):
+    while len(PTYS) <= i:
+        m, sl = pty.openpty()
+        os.set_blocking(m, False)
+        PTYS.append((m, sl))
+    return PTYS[i]
 
 C_GET, C_SET, C_READ, C_WRITE, C_SELECT, C_DRAIN, C_CLOCK, C_MORE = range(8)
 C_OUT, C_FLUSH, C_RENDER, C_SLEEP, C_HANDLE, C_FINALIZE = 8, 9, 10, 11, 12, 13
@@ -99,14 +119,15 @@ def make_attrs(spec):
     return [iflag, oflag, cflag, lflag, ispeed, ospeed, cc]
 
 
-def drain_master():
+def drain_master(master=None):
+    master = MASTER if master is None else master
     out = b""
     while True:
         try:
-            r, _, _ = R_SELECT([MASTER], [], [], 0)
+            r, _, _ = R_SELECT([master], [], [], 0)
             if not r:
                 return out
-            out += R_READ(MASTER, 65536)
+            out += R_READ(master, 65536)
         except (BlockingIOError, OSError):
             return out
 
@@ -225,8 +246,9 @@ def p_tcdrain(fd):
 class Out:
     """sys.stdout replacement connected to the pty slave."""
 
-    def __init__(self):
-        self.f = os.fdopen(os.dup(SLAVE), "w")
+    def __init__(self, fd=None):
+        self.fd = SLAVE if fd is None else fd
+        self.f = os.fdopen(os.dup(self.fd), "w")
 
     def write(self, s):
         return INJ.call(C_OUT, self.f.write, (s,))
@@ -241,7 +263,7 @@ class Out:
         return True
 
     def fileno(self):
-        return SLAVE
+        return self.fd
 
     def close(self):
         try:
@@ -444,12 +466,73 @@ def run_case(case):
         # initialised state of the package (caches, first-call paths) is then the same whatever ran before
         # in this process, so that the k-th signal point is the same position in the counting run, the
         # faulted run and a replay
-        wkey = json.dumps([case["fn"], case["mode"], case["attrs"]], sort_keys=True)
+        wkey = json.dumps([case["fn"], case["mode"], case["attrs"], case.get("layout")], sort_keys=True)
         if wkey not in _WARMED:
             _WARMED.add(wkey)
             run_case({k: v for k, v in case.items() if k not in ("async", "fault")} | {"fault": None})
+    lay = case.get("layout")
+    if lay is not None:
+        return run_layout_case(case, lay)
+    return run_case_on(case, None)
+
+
+def run_layout_case(case, lay):
+    """the terminals and the standard descriptors of the process laid out as the case says (data)"""
+    global MASTER, SLAVE
+    n = len(lay["ptys"])
+    pty_pair(n - 1)
+    for fd in (0, 1):
+        if fd not in FD_SAVE:
+            FD_SAVE[fd] = os.dup(fd)
+    primary = lay["stdout"] if case["fn"] == "draw" else lay["tty"]
+    extra = []
+    try:
+        MASTER, SLAVE = PTYS[primary]
+        U._tty_fd = PTYS[lay["tty"]][1]
+        for i in range(n):
+            if i != primary:
+                R_TCSETATTR(PTYS[i][1], termios.TCSANOW, make_attrs(lay["ptys"][i]))
+                R_TCFLUSH(PTYS[i][1], termios.TCIOFLUSH)
+                drain_master(PTYS[i][0])
+        si = lay["stdin"]
+        if si == "pipe":
+            r, w = os.pipe()
+            extra += [r, w]
+            os.dup2(r, 0)
+        elif si == "null":
+            r = os.open(os.devnull, os.O_RDONLY)
+            extra.append(r)
+            os.dup2(r, 0)
+        else:
+            os.dup2(PTYS[si][1], 0)
+        os.dup2(PTYS[lay["stdout"]][1], 1)
+        sys.stdin = sys.__stdin__ = open(0, "r", closefd=False)
+        return run_case_on(dict(case, attrs=lay["ptys"][primary]), lay)
+    finally:
+        try:
+            sys.stdin.close()
+        except Exception:
+            pass
+        sys.stdin = sys.__stdin__ = REAL_STDIN
+        os.dup2(FD_SAVE[0], 0)
+        os.dup2(FD_SAVE[1], 1)
+        for fd in extra:
+            os.close(fd)
+        for m, _ in PTYS[:n]:
+            drain_master(m)
+        MASTER, SLAVE = PTYS[0]
+        U._tty_fd = SLAVE
+
+
+def run_case_on(case, lay):
+    global INJ
     mode = case["mode"]
     attrs = make_attrs(case["attrs"])
+    terms = [SLAVE] if lay is None else [sl for _, sl in PTYS[:len(lay["ptys"])]]
+    prim = terms.index(SLAVE)
+
+    def snap_all():
+        return [norm(R_TCGETATTR(sl)) for sl in terms]
     # ---- prepare the terminal
     R_TCSETATTR(SLAVE, termios.TCSANOW, attrs)
     R_TCFLUSH(SLAVE, termios.TCIOFLUSH)
@@ -458,10 +541,11 @@ def run_case(case):
     if pre:
         R_WRITE(MASTER, bytes((0x61 + i % 26) for i in range(pre)))
         drain_master()  # echo
-    before = norm(R_TCGETATTR(SLAVE))
+    before_all = snap_all()
+    before = before_all[prim]
     INJ = inj = Inject(case.get("fault"), before)
     res = {"abort": None, "exc": None}
-    held = before
+    held_all = before_all
     # ---- patch
     saved_q = (U._queries_enabled, U._query_timeout)
     termios.tcgetattr, termios.tcsetattr, termios.tcdrain = p_tcgetattr, p_tcsetattr, p_tcdrain
@@ -476,6 +560,8 @@ def run_case(case):
         fn = case["fn"]
         if fn == "draw":
             sys.stdout = out = Out()
+        elif lay is not None:
+            sys.stdout = out = Out(PTYS[lay["stdout"]][1])
         def operation():
             if fn == "read_tty":
                 kw = {}
@@ -509,15 +595,15 @@ def run_case(case):
             else:
                 operation()
             res["out"] = 0
-            held = norm(R_TCGETATTR(SLAVE))
+            held_all = snap_all()
         except KeyboardInterrupt as e:
-            held = norm(R_TCGETATTR(SLAVE))  # the exception (traceback, frames, their locals) is still referenced
+            held_all = snap_all()  # the exception (traceback, frames, their locals) is still referenced
             res["out"], res["exc"] = 1, repr(e)
         except Abort as e:
-            held = norm(R_TCGETATTR(SLAVE))
+            held_all = snap_all()
             res["out"], res["abort"] = 0, str(e)
         except Exception as e:
-            held = norm(R_TCGETATTR(SLAVE))
+            held_all = snap_all()
             res["out"], res["exc"] = 2, repr(e)[:200]
         if tracer is not None:
             res["npoints"], res["fired"], res["where"] = tracer.count, tracer.fired, tracer.where
@@ -534,9 +620,13 @@ def run_case(case):
             out.close()
         INJ = None
     gc.collect()  # whatever was kept alive by the exception is gone now
-    after = norm(R_TCGETATTR(SLAVE))
+    after_all = snap_all()
+    held, after = held_all[prim], after_all[prim]
     drain_master()
-    res.update(events=inj.events, ncalls=inj.n, restored=(before == held == after), before=before, held=held, after=after)
+    res.update(events=inj.events, ncalls=inj.n, restored=(before_all == held_all == after_all), before=before, held=held,
+               after=after)
+    if lay is not None:
+        res["terms"] = [{"before": b, "held": h, "after": a} for b, h, a in zip(before_all, held_all, after_all)]
     return res
 
 
